@@ -9,7 +9,7 @@ namespace Iauthd.Proto
 open Iauthd
 
 /-- `irc_pton(&addr, bits ? &bits : NULL, text, 0)` -/
-def ptonC (text : Bytes) (wantBits : Bool) : Except Addr.Fault Addr.PtonRes := Addr.pton text wantBits false
+def ptonC (text : Bytes) (wantBits : Bool) : Except Addr.Fault Addr.PtonRes := Addr.ptonFixed text wantBits false
 
 /-- `irc_ntop(buf, IRC_NTOP_MAX, &addr)` read back as a C string -/
 def ntopC (a : Addr.Addr) : Bytes := (Addr.ntop a 40).1
@@ -19,7 +19,7 @@ def checkMaskC (a m : Addr.Addr) (bits : Nat) : Bool := Addr.checkMask a m bits
 
 theorem ptonC_safe (text : Bytes) (wantBits : Bool) : ∃ r, ptonC text wantBits = .ok r := by
   have h : (ptonC text wantBits).isOk = true := by
-    unfold ptonC Addr.pton
+    unfold ptonC Addr.ptonFixed
     exact Addr.pton_safe _ text wantBits false
   cases hp : ptonC text wantBits with
   | error e => simp [hp, Except.isOk, Except.toBool] at h
